@@ -4,7 +4,7 @@ import re
 import vlib
 
 MODEL_OPS = {"open", "test", "testopen", "tell", "rawtell", "timetell", "total", "rawtotal", "timetotal", "serial", "streams",
-             "seekable", "info", "read", "readi", "rawseek", "pcmseek", "pcmseekpage", "timeseek", "timeseekpage",
+             "seekable", "info", "read", "readto", "readi", "rawseek", "pcmseek", "pcmseekpage", "timeseek", "timeseekpage",
              "rawseeklap", "pcmseeklap", "pcmseekpagelap", "timeseeklap", "timeseekpagelap", "halfrate", "crosslap", "clear"}
 BUILD_OPS = {"link", "garbage", "damage", "rawlink"}
 
